@@ -920,6 +920,9 @@ func newCommonNode(ctx context.Context, cfg CommonConfig) *commonNode {
 // TransactionResultsFromCometBFT converts CometBFT transactions and responses
 // into transaction results.
 func TransactionResultsFromCometBFT(height int64, txs [][]byte, responses []*cmtabcitypes.ResponseDeliverTx) ([]*results.Result, error) {
+	if len(responses) != len(txs) {
+		return nil, fmt.Errorf("cometbft: number of transaction results (%d) does not match the number of transactions (%d)", len(responses), len(txs))
+	}
 	txResults := make([]*results.Result, 0, len(txs))
 
 	for idx, rs := range responses {
